@@ -462,6 +462,27 @@ func fatalClass(out string) string {
 			}
 		}
 	}
+	// no runtime message: the code under test ended the process itself (os.Exit after logging);
+	// its last own line of output is the best description there is
+	lines := strings.Split(strings.TrimRight(out, "\n"), "\n")
+	for i := len(lines) - 1; i >= 0; i-- {
+		l := strings.TrimSpace(lines[i])
+		if l == "" || strings.HasPrefix(l, "exit status") || strings.HasPrefix(l, "FAIL") || strings.HasPrefix(l, "=== ") || strings.HasPrefix(l, "--- ") || strings.HasPrefix(l, "...") {
+			continue
+		}
+		// keep the plain words only: file names, positions and quoted symbols differ from case to case
+		var words []string
+		for _, w := range strings.Fields(l) {
+			if !strings.ContainsAny(w, "/.:\"'`()[]{}=") {
+				words = append(words, w)
+			}
+		}
+		l = strings.Join(words, "-")
+		if len(l) > 80 {
+			l = l[:80]
+		}
+		return "exit:" + stripDigits(l)
+	}
 	return "unknown"
 }
 
